@@ -81,9 +81,10 @@ try:
         # TestSequenceLargeLog and TestCCADBRoots are "always_fail" in the pinned baseline (/root/.vp/BASELINE.json:
         # load sensitive / needs the network) and are not part of the 3814 pinned tests
         SKIP = "^(TestSequenceLargeLog|TestCCADBRoots)$"
+        run(["go", "build", "-o", os.devnull, "./cmd/skylight"])  # TestScripts starts the server with `go run .` under a 10 s deadline
         rc, out = run(["go", "test", "-vet=off", "-count=1", "-timeout", "25m", "-skip", SKIP, "./..."])
         fails = sorted(set(re.findall(r"--- FAIL: (\S+)", out)))
-        pk_fail = sorted(set(re.findall(r"(?m)^FAIL\s+(\S+)", out)))
+        pk_fail = sorted(set(re.findall(r"(?m)^FAIL\s+(filippo\.io/\S+)", out)))
         res["suite"] = {"rc": rc, "failed_tests": fails, "failed_pkgs": pk_fail, "secs": int(time.time() - t0)}
         still = list(pk_fail)
         if rc != 0:
